@@ -396,6 +396,21 @@ class G:
     return ys
 
   # ---- float ops outside the coverage table
+  def rnn(self, x, units):
+    """Builtin RNN cell (outside the coverage table): a STATEFUL operator whose hidden state is a variable tensor."""
+    n, d = self.shape[x]
+    wi = self.const('rnn_w', self.w((units, d), 0.5))
+    wr = self.const('rnn_r', self.w((units, units), 0.3))
+    bb = self.const('rnn_b', self.w((units,), 0.2))
+    st = self.act('rnn_state', (n, units))
+    self.sg.tensors[st].isVariable = True
+    y = self.act('rnn', (n, units))
+    o = S.RNNOptionsT()
+    o.fusedActivationFunction = S.ActivationFunctionType.TANH
+    self.op(BO.RNN, [x, wi, wr, bb, st], [y], o, S.BuiltinOptions.RNNOptions)
+    self.classes.add('stateful_op')
+    return y
+
   def relu(self, x):
     y = self.unary(BO.RELU, 'relu', x)
     return y
@@ -429,7 +444,7 @@ UNARY_UNSUP = ('relu', 'abs', 'neg', 'leaky_relu')
 
 def rand_graph(g, rng, n_ops=6, allow_unsupported=True, allow_emb=True,
                in_kind=None, allow_bmm_const=True, allow_rsqrt=True,
-               export_consumed_p=0.15, only=None, dup_output_p=0.06, big_p=0.06):
+               export_consumed_p=0.15, only=None, dup_output_p=0.06, big_p=0.06, allow_stateful=True):
   """Populates subgraph g with a random DAG; returns output tensor ids."""
   kind = in_kind or rng.choice(['r2', 'r3', 'r4'], p=[0.45, 0.2, 0.35])
   # realistic widths once in a while: anything that only shows beyond 8 / 16 / 64 / 128 / 256 elements or channels (packing, alignment,
@@ -478,6 +493,8 @@ def rand_graph(g, rng, n_ops=6, allow_unsupported=True, allow_emb=True,
       cands += ['relu', 'abs', 'neg', 'maximum', 'leaky_relu']
     if r in (2, 3):
       cands += ['fc', 'fc', 'fc']
+    if r == 2 and allow_unsupported and allow_stateful and not big:
+      cands += ['rnn']
     if r == 3:
       cands += (['bmm'] if allow_bmm_const else []) + ['bmm_act']
     if r == 2 and allow_bmm_const:
@@ -506,6 +523,8 @@ def rand_graph(g, rng, n_ops=6, allow_unsupported=True, allow_emb=True,
                        bias=True, act=int(rng.choice([0, 0, 1, 3])))]
     elif k == 'tconv':
       outs = [g.tconv(t, int(rng.integers(1, 3)), bias=rng.random() < 0.5)]
+    elif k == 'rnn':
+      outs = [g.rnn(t, int(rng.choice([3, 4])))]
     elif k in ('avgpool', 'maxpool'):
       if min(sh[1], sh[2]) < 2:
         continue
@@ -610,7 +629,7 @@ def rand_graph(g, rng, n_ops=6, allow_unsupported=True, allow_emb=True,
       outs = g.split(t, int(rng.choice(axs)), 2)
     if outs is None:
       continue
-    if k in UNARY_UNSUP or k in ('maximum', 'maxpool'):
+    if k in UNARY_UNSUP or k in ('maximum', 'maxpool', 'rnn'):
       g.classes.add('unsupported_op')
     made += 1
     consumed.update(ins)
@@ -674,7 +693,7 @@ def rand_model(rng, n_sub=1, n_ops=None, sep='_', **kw):
   graphs = []
   for i in range(n_sub):
     g = G(b, f'sub{i}', f's{i}/' if n_sub > 1 else 'm/', rng, sep=sep)
-    outs = rand_graph(g, rng, n_ops=n_ops or int(rng.integers(1, 9)), **kw)
+    outs = rand_graph(g, rng, n_ops=n_ops or int(rng.integers(1, 9)), **dict(kw, allow_stateful=(n_sub == 1 and kw.get('allow_stateful', True))))
     g.finish(outs, 'serving_default' if n_sub == 1 else f'sig{i}')
     graphs.append(g)
   spec = _spec(b, graphs, 'random')
@@ -731,6 +750,21 @@ def t_passthrough(rng):
     g.classes.add('input_is_also_output')
     return [y, x] if rng.random() < 0.5 else [x, y]
   return _single(rng, f, 'passthrough')
+
+
+def t_stateful_two_signatures(rng):
+  """Two signatures, a stateful operator (variable tensor) in the second one."""
+  b = B()
+  graphs = []
+  for i in range(2):
+    g = G(b, f'sub{i}', f's{i}/', rng)
+    x = g.inp((2, 6))
+    y = g.fc(x, 4)
+    if i == 1:
+      y = g.fc(g.rnn(y, 3), 3)
+    g.finish([y], f'sig{i}')
+    graphs.append(g)
+  return _spec(b, graphs, 'stateful_two_signatures')
 
 
 def t_producer_zero_float_out(rng):
